@@ -1,5 +1,15 @@
 import HeraProofs.Props.C19
+import HeraProofs.Props.C19b
 open Hera
 #print axioms C19_div_mod
 #print axioms fdiv_fmod_bounds
 #print axioms to_u16_ok
+#print axioms size_code_is_ops
+#print axioms ord_code_is_ops
+#print axioms not_code_is_ops
+#print axioms malloc_code_is_ops
+#print axioms C19_size
+#print axioms C19_ord
+#print axioms C19_not
+#print axioms malloc_tail
+#print axioms C19_malloc
